@@ -19,6 +19,8 @@
 (*         (CertificateVerify binds the certificate key) is an assumption. *)
 (* Part S  swarm: Dial(P) over transports that may return a connection     *)
 (*         authenticated as somebody else (swarm_dial.go dialAddr/dialPeer)*)
+(* Part H  the QUIC transport's own Dial contract: plain dial and the      *)
+(*         hole-punch path where an ACCEPTED connection completes the dial *)
 (***************************************************************************)
 EXTENDS Naturals, Sequences, FiniteSets, TLC
 
@@ -514,4 +516,51 @@ DialAuthS == (st.part = "S" /\ st.done) => (st.res \in {"P", "err"} /\ st.visibl
 WrongClosedS == (st.part = "S" /\ st.done) =>
                   st.closed = Cardinality({i \in 1..st.tried : st.outs[i] = "Q"})
 ReachWrongS == ~(st.part = "S" /\ st.done /\ st.closed > 0 /\ st.res = "P")
+(***************************************************************************)
+(*                                PART H                                   *)
+(***************************************************************************)
+\* Every way in which the QUIC transport's Dial(ctx, A, P) returns a connection
+\* (p2p/transport/quic/transport.go Dial / holePunch, listener.go Accept):
+\*   plain  the transport is the TLS client; ConfigForPeer(P) verifies whoever answers at A;
+\*   punch  (simultaneous connect, server role) the dial registers an active hole punch and is completed
+\*          by a connection its own LISTENER accepted - handed over iff it comes from address A AND is
+\*          authenticated as P; everything else surfaces as an ordinary inbound connection.
+\* Host X lives at address A, host Y at another address B; ownerA says which of them is P (the other is
+\* Q, an honestly authenticated other peer).  Each may connect in once, at any time: before the punch is
+\* registered, while it waits, after it ended.
+HOther(x) == IF x = "P" THEN "Q" ELSE "P"
+InitH ==
+  \E path \in {"plain", "punch"}, o \in {"P", "Q"} :
+    /\ st = [part |-> "H", path |-> path, ownerA |-> o, phase |-> "idle", res |-> "-", inbound |-> <<>>, arrived |-> {}]
+    /\ op = [name |-> "startH", path |-> path, ownerA |-> o]
+PlainH ==
+  /\ st.path = "plain" /\ st.phase = "idle"
+  /\ LET r == IF st.ownerA = "P" THEN "P" ELSE "err" IN
+     /\ st' = [st EXCEPT !.phase = "done", !.res = r]
+     /\ op' = [name |-> "plain", res |-> r]
+StartH ==
+  /\ st.path = "punch" /\ st.phase = "idle"
+  /\ st' = [st EXCEPT !.phase = "punching"]
+  /\ op' = [name |-> "punch"]
+ArriveH ==
+  /\ st.path = "punch"
+  /\ \E from \in {"A", "B"} \ st.arrived :
+       LET as == IF from = "A" THEN st.ownerA ELSE HOther(st.ownerA)
+           handed == st.phase = "punching" /\ from = "A" /\ (Variant = "addronly" \/ as = "P")
+       IN /\ st' = IF handed
+                   THEN [st EXCEPT !.phase = "done", !.res = as, !.arrived = @ \cup {from}]
+                   ELSE [st EXCEPT !.inbound = Append(@, as), !.arrived = @ \cup {from}]
+          /\ op' = [name |-> "arrive", from |-> from, as |-> as, handed |-> handed,
+                    res |-> IF handed THEN as ELSE st.res]
+\* nobody (else) shows up: the punch ends by time-out / cancellation
+CancelH ==
+  /\ st.path = "punch" /\ st.phase = "punching"
+  /\ st' = [st EXCEPT !.phase = "done", !.res = "err"]
+  /\ op' = [name |-> "cancel", res |-> "err"]
+NextH == PlainH \/ StartH \/ ArriveH \/ CancelH
+\* the transport's Dial for P returns P's connection or an error; somebody else's connection always
+\* surfaces as an inbound connection of its own
+DialAuthH == st.part = "H" => (st.res \in {"-", "P", "err"} /\ Len(st.inbound) + (IF st.res = "P" /\ st.path = "punch" THEN 1 ELSE 0) = Cardinality(st.arrived))
+ReachPunchedH == ~(st.part = "H" /\ st.path = "punch" /\ st.res = "P" /\ Len(st.inbound) > 0)
+ReachRefusedH == ~(st.part = "H" /\ st.path = "punch" /\ st.res = "err" /\ "Q" \in {st.inbound[i] : i \in 1..Len(st.inbound)})
 =============================================================================
